@@ -505,7 +505,7 @@ class Interp:
         """(axis kind of the iteration, element value)"""
         if it.k == "list":
             el = it.elem if it.elem is not None else unk("empty list element")
-            if it.axis in BLOCK_AXES:
+            if it.axis == "B":
                 el = mark_part(el)
             return it.axis or "?", el
         if it.k == "range":
@@ -960,6 +960,8 @@ class Interp:
                 return unk("log-domain value multiplied by a non-constant")
             if a.wild and b.wild:
                 return wild(sh, cv)
+            if (a.wild and a.cval == 0) or (b.wild and b.cval == 0):
+                return wild(sh, 0.0)  # zero is zero in every dimension
             if a.wild or b.wild:
                 w, o = (a, b) if a.wild else (b, a)
                 r = o.copy(sh=sh, cval=None, count_of=None, index_of=None)
@@ -1088,7 +1090,7 @@ class Interp:
             if isinstance(sl, ast.Slice):
                 return base
             el = base.elem if base.elem is not None else unk("element of empty list")
-            return mark_part(el) if base.axis in BLOCK_AXES else el
+            return mark_part(el) if base.axis == "B" else el
         if base.k == "dict":
             return base.elem if base.elem is not None else unk("element of empty dict")
         if base.k == "func" and base.note and base.note.endswith("hdf5"):
